@@ -302,6 +302,64 @@ func ruleR13(c *Ctx) {
 					return true
 				})
 			}
+			// the bounds are the caller's: the only assignments to the key-typed parameters of Range
+			// are the swap of the two and the documented default of an empty upper bound (the
+			// greatest stored key)
+			for _, tk := range m.Trees {
+				ru := tk.Methods["Range"]
+				if ru == nil || ru.Type.Params == nil {
+					continue
+				}
+				var kp []*types.Var
+				for _, f := range ru.Type.Params.List {
+					for _, nm := range f.Names {
+						if v, _ := info.Defs[nm].(*types.Var); v != nil {
+							kp = append(kp, v)
+						}
+					}
+				}
+				if len(kp) != 2 {
+					continue
+				}
+				isParam := func(e ast.Expr) int {
+					v := identVar(info, e)
+					for i, p := range kp {
+						if v == p {
+							return i
+						}
+					}
+					return -1
+				}
+				ast.Inspect(ru.Body, func(n ast.Node) bool {
+					as, ok := n.(*ast.AssignStmt)
+					if !ok {
+						return true
+					}
+					for i, l := range as.Lhs {
+						pi := isParam(l)
+						if pi < 0 {
+							continue
+						}
+						key := fmt.Sprintf("%s.Range assignment to bound %s", tk.Name, kp[pi].Name())
+						switch {
+						case len(as.Lhs) == 2 && len(as.Rhs) == 2 && isParam(as.Lhs[0]) >= 0 && isParam(as.Lhs[1]) >= 0 && isParam(as.Rhs[0]) == isParam(as.Lhs[1]) && isParam(as.Rhs[1]) == isParam(as.Lhs[0]):
+							c.r.ok("R13", key, m.pos(as.Pos()), "swap of the two bounds", "C03")
+						case pi == 1 && len(as.Rhs) == 1:
+							call, _ := ast.Unparen(as.Rhs[0]).(*ast.CallExpr)
+							okDef := call != nil && c.isGreatestKeyCall(ru, call, 0)
+							if okDef {
+								c.r.ok("R13", key, m.pos(as.Pos()), "an empty upper bound defaults to the greatest stored key", "C03")
+							} else {
+								c.r.bad("R13", key, m.pos(as.Pos()), "the upper bound is replaced by something other than the greatest stored key", "C03")
+							}
+						default:
+							_ = i
+							c.r.bad("R13", key, m.pos(as.Pos()), "the lower bound the caller passed is replaced: the sequence no longer yields exactly the keys within the requested bounds", "C03")
+						}
+					}
+					return true
+				})
+			}
 		case parent.Name == "filter":
 			props := []string{"C04"}
 			for _, yc := range ycalls {
@@ -790,4 +848,53 @@ func ruleR39R40(c *Ctx) {
 			c.r.ok("R40", tk.Name+".Prefix not offered", m.pos(u.Decl.Pos()), "panics (no prefix scan for this key kind)", props...)
 		}
 	}
+}
+
+
+// isGreatestKeyCall: the call yields restoreKey(maximum(t.root)) – written in place or inside a
+// helper of the tree that returns it (lastKey()).
+func (c *Ctx) isGreatestKeyCall(u *FuncUnit, call *ast.CallExpr, depth int) bool {
+	m := c.m
+	info := m.Info
+	if depth > 2 {
+		return false
+	}
+	if strings.HasSuffix(m.calleeName(call), ".restoreKey") && len(call.Args) == 1 {
+		arg := ast.Unparen(m.throughLocals(u, call.Args[0]))
+		hc, _ := arg.(*ast.CallExpr)
+		if hc == nil {
+			if lv := identVar(info, arg); lv != nil {
+				hc = c.defCallOf(u, lv)
+			}
+		}
+		return hc != nil && m.calleeName(hc) == "maximum" && len(hc.Args) == 1 && c.isTreeRoot(hc.Args[0])
+	}
+	cu := m.calleeUnit(call)
+	if cu == nil || cu.Body == nil || cu.Lit != nil {
+		return false
+	}
+	found, okAll := false, true
+	ast.Inspect(cu.Body, func(n ast.Node) bool {
+		rs, ok := n.(*ast.ReturnStmt)
+		if !ok || len(rs.Results) == 0 {
+			return true
+		}
+		first := ast.Unparen(rs.Results[0])
+		var dc *ast.CallExpr
+		if cc, isCall := first.(*ast.CallExpr); isCall {
+			dc = cc
+		} else if v := identVar(info, first); v != nil {
+			dc = c.defCallOf(cu, v)
+			if dc == nil {
+				return true // the zero key of a "none" result
+			}
+		}
+		if dc != nil && c.isGreatestKeyCall(cu, dc, depth+1) {
+			found = true
+		} else {
+			okAll = false
+		}
+		return true
+	})
+	return found && okAll
 }
